@@ -78,7 +78,7 @@ def run_case(case):
 
     logging.disable(logging.CRITICAL)
     root = tlc.scratch_dir("co-")
-    w = CoWorld(root, case["cls"], LT[case["link"]], with_state=case["state"])
+    w = CoWorld(root, case["cls"], LT[case["link"]], with_state=case["state"], read_only=bool(case.get("ro")))
     fs = CoFS()
     w.fs = fs
     w.cache.fs = fs
@@ -207,7 +207,7 @@ def make_cases(gen, rng, n, focus):
         relink = rng.random() < (0.5 if focus == "C10" else 0.2)
         prompt = rng.choice(["absent", "absent", "declines", "accepts"])
         op = {"t": t, "force": force, "relink": relink, "prompt": prompt}
-        cases.append({"id": i, "link": link, "cls": ["local", "generic"][i % 2], "state": i % 4 != 3,
+        cases.append({"id": i, "link": link, "cls": ["local", "generic"][i % 2], "state": i % 4 != 3, "ro": i % 5 == 4,
                       "init": {"ws": ws, "cache": cache, "dirobjs": dirobjs}, "ops": [op]})
     return cases
 
